@@ -59,7 +59,7 @@ func NewHead(rootGoitPath string) (*Head, error) {
 		if ok := headRegexp.MatchString(headString); !ok {
 			return nil, ErrInvalidHead
 		}
-		headSplit := strings.Split(headString, ": ")
+		headSplit := strings.SplitN(headString, ": ", 2)
 		slashSplit := strings.Split(headSplit[1], "/")
 		branch := slashSplit[len(slashSplit)-1]
 		head.Reference = branch
